@@ -588,6 +588,11 @@ struct Extractor {
             O["label"] = LS->getDecl()->getNameAsString();
             Ch.push_back(node(LS->getSubStmt()));
         }
+        else if (auto* DIE = dyn_cast<CXXDefaultInitExpr>(S)) {
+            // a default member initialiser (T* p_ = nullptr;): emit the initialiser expression as the child
+            generic = false;
+            if (DIE->getExpr()) Ch.push_back(node(DIE->getExpr()));
+        }
         else if (auto* GS = dyn_cast<GotoStmt>(S)) {
             O["label"] = GS->getLabel()->getNameAsString();
         }
